@@ -2207,9 +2207,9 @@ GROUP_IMPORTS = {'Std': ['Fc.Kernel'], 'Grp': ['FcGen.KSrcStd', 'FcGen.KSrcPS', 
                  'Fam3': ['FcGen.KSrcStd', 'FcGen.KSrcPS', 'Fc.RustEnv'],
                  'Fam4': ['FcGen.KSrcStd', 'FcGen.KSrcPS', 'Fc.RustEnv'],
                  'Fam5': ['FcGen.KSrcStd', 'FcGen.KSrcPS', 'Fc.RustEnv']}
-GROUP_DEPS = {'Grp': ['Std', 'PS'], 'Fam': ['Std', 'PS', 'Idx'], 'GrpPoll': ['Grp'], 'RaceV': ['Fam'], 'MergeV': ['Fam'], 'JoinV': ['Fam2'], 'ChainV': ['Fam5', 'Fam4'], 'Fam2': ['Std', 'PS'], 'Fam3': ['Std', 'PS'], 'Fam4': ['Std', 'PS'], 'Fam5': ['Std', 'PS']}
+GROUP_DEPS = {'Grp': ['Std', 'PS'], 'Fam': ['Std', 'PS', 'Idx'], 'GrpPoll': ['Grp'], 'RaceV': ['Fam'], 'MergeV': ['Fam'], 'JoinV': ['Fam2'], 'TryJoinV': ['Fam3', 'Fam2'], 'ChainV': ['Fam5', 'Fam4'], 'ZipV': ['Fam4', 'Fam5'], 'Fam2': ['Std', 'PS'], 'Fam3': ['Std', 'PS'], 'Fam4': ['Std', 'PS'], 'Fam5': ['Std', 'PS']}
 # groups of tie theorems that have no generated file of their own (they talk about functions of another group's file)
-VIRTUAL_GROUPS = {'GrpPoll': ['GrpF', 'GrpS'], 'RaceV': ['RaceV'], 'MergeV': ['MergeV'], 'JoinV': ['JoinV'], 'ChainV': ['ChainV']}
+VIRTUAL_GROUPS = {'GrpPoll': ['GrpF', 'GrpS'], 'RaceV': ['RaceV'], 'MergeV': ['MergeV'], 'JoinV': ['JoinV'], 'ChainV': ['ChainV'], 'ZipV': ['ZipV'], 'TryJoinV': ['TryJoinV']}
 # src/utils/wakers/vec/waker_vec.rs (std) is Arc / closure glue around the readiness set: modelled by hand here —
 # a table of `len` sub-wakers next to the shared set; `resize` resizes both
 WAKERVEC_PRELUDE = '''/-- hand-written model of `WakerVec` (utils/wakers/vec/waker_vec.rs, std): `nwakers` sub-wakers + the shared set -/
@@ -2251,6 +2251,8 @@ REQUIRED = {
     'MergeV': ['MergeV.Merge.poll_next'],
     'JoinV': ['JoinV.Join.poll', 'JoinV.Join.drop', 'JoinV.Join.new'],
     'ChainV': ['ChainV.Chain.poll_next'],
+    'TryJoinV': ['TryJoinV.TryJoin.poll', 'TryJoinV.TryJoin.drop', 'TryJoinV.TryJoin.new'],
+    'ZipV': ['ZipV.Zip.poll_next', 'ZipV.Zip.drop', 'ZipV.Zip.new'],
     'Fam2': ['JoinV.Join.poll', 'JoinV.Join.drop', 'JoinV.Join.new'],
     'Fam3': ['TryJoinV.TryJoin.poll', 'TryJoinV.TryJoin.drop', 'TryJoinV.TryJoin.new'],
     'Fam4': ['ZipV.Zip.poll_next', 'ZipV.Zip.drop', 'ZipV.Zip.new'],
